@@ -161,8 +161,34 @@ class Callable_(object):
         self.instance_based = instance_based
 
 
+class Event(object):
+    def __init__(self, numb, meaning, data=()):
+        self.numb = numb
+        self.meaning = meaning
+        self.data = list(data)    # [(name, type name)] in modeled order
+
+
+class StateMachine(object):
+    '''
+    kind: 'instance' | 'class'. states: [(name, numb, action body, marker)],
+    txns: [(from state name or None for a creation transition, event numb,
+    to state name, action body or None, marker)]. The marker is written to
+    SM_ACT.Descrip so that a particular action can be found again.
+    '''
+    def __init__(self, kl, kind, events, states=(), txns=()):
+        self.kl = kl
+        self.kind = kind
+        self.events = list(events)
+        self.states = list(states)
+        self.txns = list(txns)
+
+    def label(self, ev):
+        return '%s%s%d' % (self.kl, '_A' if self.kind == 'class' else '', ev.numb)
+
+
 class Diagram(object):
     def __init__(self):
+        self.state_machines = []
         self.classes = []
         self.rels = []
         self.enums = []           # [(name, [enumerators], where)]
@@ -384,6 +410,45 @@ def build(d, rows=None):
                 pi = R.new_id()
                 R.add('S_BPARM', BParm_ID=pi, Brg_ID=bi, Name=pn, DT_ID=dt[pt], Previous_BParm_ID=prev)
                 prev = pi
+    for sm in d.state_machines:
+        smi = R.new_id()
+        R.add('SM_SM', SM_ID=smi)
+        R.add('SM_MOORE', SM_ID=smi)
+        R.add('SM_ISM' if sm.kind == 'instance' else 'SM_ASM', SM_ID=smi, Obj_ID=obj[sm.kl])
+        evt = {}
+        for ev in sm.events:
+            ei = R.new_id()
+            evt[ev.numb] = ei
+            R.add('SM_EVT', SMevt_ID=ei, SM_ID=smi, Numb=ev.numb, Mning=ev.meaning, Drv_Lbl=sm.label(ev))
+            R.add('SM_SEVT', SMevt_ID=ei, SM_ID=smi)
+            R.add('SM_LEVT', SMevt_ID=ei, SM_ID=smi)
+            prev = 0
+            for dn, dty in ev.data:
+                di = R.new_id()
+                R.add('SM_EVTDI', SMedi_ID=di, SM_ID=smi, Name=dn, DT_ID=dt[dty], SMevt_ID=ei, Previous_SMedi_ID=prev)
+                prev = di
+        stt = {}
+        for name, numb, body, marker in sm.states:
+            si = R.new_id()
+            stt[name] = si
+            R.add('SM_STATE', SMstt_ID=si, SM_ID=smi, Name=name, Numb=numb)
+            ai = R.new_id()
+            R.add('SM_MOAH', Act_ID=ai, SM_ID=smi, SMstt_ID=si)
+            R.add('SM_AH', Act_ID=ai, SM_ID=smi)
+            R.add('SM_ACT', Act_ID=ai, SM_ID=smi, Suc_Pars=1, Action_Semantics_internal=body, Descrip=marker)
+        for frm, evn, to, body, marker in sm.txns:
+            ti = R.new_id()
+            R.add('SM_TXN', Trans_ID=ti, SM_ID=smi, SMstt_ID=stt[to])
+            if frm is None:
+                R.add('SM_CRTXN', Trans_ID=ti, SM_ID=smi, SMevt_ID=evt[evn])
+            else:
+                R.add('SM_NSTXN', Trans_ID=ti, SM_ID=smi, SMstt_ID=stt[frm], SMevt_ID=evt[evn])
+                R.add('SM_SEME', SMstt_ID=stt[frm], SMevt_ID=evt[evn], SM_ID=smi)
+            if body is not None:
+                ai = R.new_id()
+                R.add('SM_TAH', Act_ID=ai, SM_ID=smi, Trans_ID=ti)
+                R.add('SM_AH', Act_ID=ai, SM_ID=smi)
+                R.add('SM_ACT', Act_ID=ai, SM_ID=smi, Suc_Pars=1, Action_Semantics_internal=body, Descrip=marker)
     for group, items, where in d.constants:
         gi = R.new_id()
         pe(gi, where, 10)
